@@ -451,7 +451,11 @@ fn parse_expr(token_stream: &mut TokenStream, min_bind_pow: f64) -> Result<Expr,
                     None => return Err(PolynomialError::UnexpectedEndOfTokens),
                 }
             }
-            let inner = parse_expr(token_stream, 5.0)?;
+            // The argument is the parenthesised group and nothing more: in `sin(x)^2` and
+            // `sin(x)!` the operator applies to the function value, not to `x`
+            token_stream.next();
+            let inner = parse_expr(token_stream, 0.0)?;
+            ensure(token_stream, &Token::RParen)?;
             Ok(Expr::Function {
                 func,
                 inner: Box::new(inner),
